@@ -13,6 +13,7 @@ so every module is brought to one spelling before anything else looks at it:
  N7  for T in (E for V in IT if C): B  ->  for V in IT: if C: T = E; B      (also through a local bound once to the generator);
  N10 [E for v in (a, b)] -> [E[a/v], E[b/v]];  t1, t2 = (E for v in (a, b)) -> t1, t2 = (E[a/v], E[b/v]);  C == x -> x == C for constants C;
  N11 a local bound once, unconditionally, to a literal dict of references and only read afterwards is replaced by the literal (then N4 applies);
+ N14 tests are brought to negation normal form (De Morgan; not (a is None) -> a is not None; ordering comparisons untouched);
  N12 L = []; for v in IT: L.append(E)  ->  L = [E for v in IT];
  N8  X.update(k1=v1, k2=v2) / X.update({'k1': v1}) as a statement -> X['k1'] = v1; X['k2'] = v2;
      f(**dict(kw, a=b)) -> kw['a'] = b is NOT done (it would change kw); dict(kw, a=b) is left to the rules.
@@ -192,8 +193,38 @@ def _same(a, b):
     return ast.dump(a) == ast.dump(b)
 
 
+_FLIP = {ast.Is: ast.IsNot, ast.IsNot: ast.Is, ast.Eq: ast.NotEq, ast.NotEq: ast.Eq, ast.In: ast.NotIn, ast.NotIn: ast.In}
+
+
+def _nnf(t, neg=False):
+    """N14: negation normal form of a test (truth value only): not over and/or is pushed inward, not (a is b) -> a is not b, ...
+    Ordering comparisons are left alone (not (a < b) is not a >= b for NaN / arrays)."""
+    if isinstance(t, ast.UnaryOp) and isinstance(t.op, ast.Not):
+        return _nnf(t.operand, not neg)
+    if isinstance(t, ast.BoolOp):
+        op = t.op
+        if neg:
+            op = ast.Or() if isinstance(t.op, ast.And) else ast.And()
+        return ast.copy_location(ast.BoolOp(op=op, values=[_nnf(v, neg) for v in t.values]), t)
+    if neg and isinstance(t, ast.Compare) and len(t.ops) == 1 and type(t.ops[0]) in _FLIP:
+        return ast.copy_location(ast.Compare(left=t.left, ops=[_FLIP[type(t.ops[0])]()], comparators=t.comparators), t)
+    if neg:
+        return ast.copy_location(ast.UnaryOp(op=ast.Not(), operand=t), t)
+    return t
+
+
 class _Canon(ast.NodeTransformer):
-    """N3, N4a, N5, N6 (expression level)"""
+    """N3, N4a, N5, N6, N14 (expression level)"""
+
+    def _test(self, node):
+        self.generic_visit(node)
+        node.test = _nnf(node.test)
+        return node
+
+    visit_If = _test
+    visit_IfExp = _test
+    visit_While = _test
+    visit_Assert = _test
 
     def visit_ListComp(self, node):
         self.generic_visit(node)
@@ -260,17 +291,38 @@ class _Canon(ast.NodeTransformer):
         return node
 
     def visit_JoinedStr(self, node):
-        self.generic_visit(node)
+        # visit the embedded expressions, but not the format specs (they are templates, handled here)
+        for v in node.values:
+            if isinstance(v, ast.FormattedValue):
+                v.value = self.visit(v.value)
+                if isinstance(v.format_spec, ast.JoinedStr):
+                    for w in v.format_spec.values:
+                        if isinstance(w, ast.FormattedValue):
+                            w.value = self.visit(w.value)
         if not any(isinstance(v, ast.FormattedValue) for v in node.values):
             return ast.copy_location(ast.Constant(value="".join(v.value for v in node.values)), node)
         tpl, kws = [], []
+
+        def field(expr):
+            nm = "_f%d" % len(kws)
+            kws.append(ast.keyword(arg=nm, value=expr))
+            return nm
         for v in node.values:
             if isinstance(v, ast.Constant):
                 tpl.append(str(v.value).replace("{", "{{").replace("}", "}}"))
             elif isinstance(v, ast.FormattedValue) and v.conversion == -1 and v.format_spec is None:
-                nm = "_f%d" % len(kws)
-                tpl.append("{%s}" % nm)
-                kws.append(ast.keyword(arg=nm, value=v.value))
+                tpl.append("{%s}" % field(v.value))
+            elif isinstance(v, ast.FormattedValue) and v.conversion == -1 and isinstance(v.format_spec, ast.JoinedStr):
+                nm = field(v.value)
+                spec = []
+                for w in v.format_spec.values:
+                    if isinstance(w, ast.Constant):
+                        spec.append(str(w.value))
+                    elif isinstance(w, ast.FormattedValue) and w.conversion == -1 and w.format_spec is None:
+                        spec.append("{%s}" % field(w.value))
+                    else:
+                        return node
+                tpl.append("{%s:%s}" % (nm, "".join(spec)))
             else:
                 return node
         new = ast.Call(func=ast.Attribute(value=ast.Constant(value="".join(tpl)), attr="format", ctx=ast.Load()), args=[], keywords=kws)
@@ -486,29 +538,49 @@ def _local_dicts(fn):
                         other.add(x.id)
     done = []
     for name, sts in stores.items():
-        if len(sts) != 1 or name in other:
+        if name in other:
             continue
-        st = sts[0]
-        if st not in fn.body:            # bound unconditionally at the top level of the function body
+        if not all(_const_keys(st.value) and all(_pure(v, {}) for v in st.value.values) for st in sts):
             continue
-        d = st.value
-        if not (_const_keys(d) and all(_pure(v, {}) for v in d.values)):
+        loads = [x for x in ast.walk(fn) if isinstance(x, ast.Name) and x.id == name and isinstance(x.ctx, ast.Load)]
+        if not loads:
             continue
-        # values must not be rebound between the binding and the uses: require them to be names never stored after the binding (nested defs are fine)
-        uses = [x for x in ast.walk(fn) if isinstance(x, ast.Name) and x.id == name and isinstance(x.ctx, ast.Load)]
-        if not uses or any(getattr(u, "lineno", 0) <= st.lineno for u in uses):
+        plan = []
+        covered = set()
+        okp = True
+        for st in sts:
+            block = _block_of(fn, st)
+            if block is None:
+                okp = False
+                break
+            later = block[[i for i, x in enumerate(block) if x is st][0] + 1:]
+            # no re-binding of the name (or of a referenced value) in the statements the binding reaches
+            vnames = {x.id for v in st.value.values for x in ast.walk(v) if isinstance(x, ast.Name)} | {name}
+            if any(isinstance(x, ast.Name) and isinstance(x.ctx, ast.Store) and x.id in vnames for s2 in later for x in ast.walk(s2)):
+                okp = False
+                break
+            covered |= {id(x) for s2 in later for x in ast.walk(s2)}
+            plan.append((st, block, later))
+        if not okp or any(id(u) not in covered for u in loads):      # every read is dominated by one binding in its own block
             continue
-        vnames = {x.id for v in d.values for x in ast.walk(v) if isinstance(x, ast.Name)}
-        rebound = False
-        for n in ast.walk(fn):
-            if isinstance(n, ast.Name) and isinstance(n.ctx, ast.Store) and n.id in vnames and getattr(n, "lineno", 0) > st.lineno:
-                rebound = True
-        if rebound:
-            continue
-        _SubstName(name, d).visit(fn)
-        fn.body = [s for s in fn.body if s is not st]
+        for st, block, later in plan:
+            for j, s2 in enumerate(later):
+                _SubstName(name, st.value).visit(s2)
+            idx = [i for i, x in enumerate(block) if x is st][0]
+            del block[idx]
+            if not block:
+                block.append(ast.copy_location(ast.Pass(), st))
         done.append(name)
     return done
+
+
+def _block_of(fn, st):
+    for n in ast.walk(fn):
+        for fld in ("body", "orelse", "finalbody"):
+            v = getattr(n, fld, None)
+            if isinstance(v, list) and any(x is st for x in v):
+                return v
+    return None
 
 
 class _LocalDicts(ast.NodeTransformer):
